@@ -218,10 +218,8 @@ class Impl:
                 res = "e:" + str(x)
                 if x is not None:
                     sig = {v: m.model[v] for v in m.model}
-                    try:
-                        want = ev_terms(op[2], op[3], sig)
-                    except KeyError:
-                        want = None
+                    # variables without a value (never solved / registered later) may cancel out of the expression
+                    want = ev_terms(op[2], op[3], sig) if all(v in sig for (_, v, _) in op[2]) else x
                     if want != x:
                         self.problems.append(("evalexpr_value", {"mgr": i, "got": x, "direct": want}))
         except KeyError:
